@@ -360,7 +360,7 @@ def make_doctest(spec):
     if spec["body"].get("exc") == "fail":
         src += ">>> 1 + 1\n3\n"
     globs = {"_body": lambda: do_part(holder, ["body"], body)}
-    dt = doctest.DocTestParser().get_doctest(src, globs, "t%d" % spec["id"], "wtests.py", 0)
+    dt = doctest.DocTestParser().get_doctest(src, globs, "wtests.T%d.t%d" % (spec["id"], spec["id"]), "wtests.py", 0)
 
     class DT(doctest.DocTestCase):
         def __str__(self):
